@@ -242,8 +242,24 @@ func sprintf(s string, vals []value) string {
 	args := make([]any, len(vals))
 	for i, val := range vals {
 		args[i] = unwrapBasicvalue(val)
+		if n, ok := args[i].(float64); ok {
+			args[i] = numArg(n)
+		}
 	}
 	return fmt.Sprintf(s, args...)
+}
+
+// numArg formats a number for the %v verb in its default format, the one
+// print uses (1000000, not 1e+06). All other verbs see a float64.
+type numArg float64
+
+// Format implements fmt.Formatter.
+func (n numArg) Format(f fmt.State, verb rune) {
+	if _, hasPrec := f.Precision(); verb == 'v' && !hasPrec {
+		fmt.Fprintf(f, fmt.FormatString(f, 's'), strconv.FormatFloat(float64(n), 'f', -1, 64)) //nolint:errcheck
+		return
+	}
+	fmt.Fprintf(f, fmt.FormatString(f, verb), float64(n)) //nolint:errcheck
 }
 
 var joinDecl = &parser.FuncDefStmt{
